@@ -158,40 +158,76 @@ def run_program(build, prog, route, workdir, qlevel=None, extra_args=(), timeout
 
 def run_many(build, jobs, workdir, nproc=None, timeout=60, timing=None):
     """jobs: list of (prog, route, qlevel, extra_args). Returns list of results in order.
-    Jobs of route 'java' are emitted in parallel, compiled by javac in batches (at most JAVA_BATCH units per javac, spread
-    over the processors), and run in parallel.  timing: optional dict that receives the wall time of the stages."""
+    Jobs of route 'java' are grouped into batches (at most JAVA_BATCH units per javac invocation, spread over the
+    processors); each batch is emitted, compiled by one javac and run as soon as its own units are ready, so a unit
+    whose compilation hangs delays only its batch.  timing: optional dict that receives the wall time."""
     import time
     results = [None] * len(jobs)
     t0 = time.time()
-    with concurrent.futures.ThreadPoolExecutor(max_workers=nproc or vlib.NCPU) as ex:
+    ncpu = nproc or vlib.NCPU
+    jidx = [i for i, j in enumerate(jobs) if j[1] == "java"]
+    units = {}
+    for i in jidx:       # a unit name must be unique inside a class directory
+        u = java_unit(jobs[i][0], jobs[i][2], jobs[i][3])
+        if units.setdefault(u, i) != i:
+            raise vlib.MachineryError("java route: two jobs share the unit name %s" % u)
+    per = min(JAVA_BATCH, max(6, -(-len(jidx) // ncpu)))
+    batches = [jidx[k:k + per] for k in range(0, len(jidx), per)]
+    with concurrent.futures.ThreadPoolExecutor(max_workers=ncpu) as ex, \
+            concurrent.futures.ThreadPoolExecutor(max_workers=max(1, len(batches))) as bx:
+        jf = {i: ex.submit(java_emit, build, jobs[i][0], workdir, jobs[i][2], jobs[i][3], timeout) for i in jidx}
         futs = {i: ex.submit(run_program, build, p, route, workdir, q, xa, timeout)
                 for i, (p, route, q, xa) in enumerate(jobs) if route != "java"}
-        jidx = [i for i, j in enumerate(jobs) if j[1] == "java"]
-        jf = {i: ex.submit(java_emit, build, jobs[i][0], workdir, jobs[i][2], jobs[i][3], timeout) for i in jidx}
-        jj = {i: f.result() for i, f in jf.items()}
-        units = {}
-        for i in jidx:       # a unit name must be unique inside a class directory
-            if units.setdefault(jj[i]["unit"], i) != i:
-                raise vlib.MachineryError("java route: two jobs share the unit name %s" % jj[i]["unit"])
-        t1 = time.time()
-        per = min(JAVA_BATCH, max(6, -(-len(jidx) // (nproc or vlib.NCPU))))
-        batches = [jidx[k:k + per] for k in range(0, len(jidx), per)]
-        cf = [ex.submit(java_compile, [jj[i] for i in b], os.path.join(workdir, "jclasses", "b%d_%d" % (n, os.getpid())))
-              for n, b in enumerate(batches)]
-        for f in cf:
-            f.result()
-        t2 = time.time()
-        rf = {i: ex.submit(java_run, jj[i], timeout) for i in jidx}
+
+        def do_batch(n, b):
+            jj = [jf[i].result() for i in b]
+            java_compile(jj, os.path.join(workdir, "jclasses", "b%d_%d_%d" % (n, os.getpid(), int(t0 * 1000) % 100000000)))
+            return [ex.submit(java_run, j, timeout) for j in jj]
+        bf = [bx.submit(do_batch, n, b) for n, b in enumerate(batches)]
+        for b, f in zip(batches, bf):
+            for i, rf in zip(b, f.result()):
+                results[i] = rf.result()
         for i, f in futs.items():
             results[i] = f.result()
-        for i, f in rf.items():
-            results[i] = f.result()
-    if timing is not None and jidx:
-        for k, v in (("emit_s", t1 - t0), ("javac_s", t2 - t1), ("java_and_rest_s", time.time() - t2)):
-            timing[k] = round(timing.get(k, 0) + v, 1)
+    if timing is not None:
+        timing["run_many_s"] = round(timing.get("run_many_s", 0) + time.time() - t0, 1)
     return results
 
 
 def exit_class(status):
     """Exit class the language definition assigns: zero / non-zero."""
     return 0 if status == "done" else 1
+
+
+def run_c_all(build, prog, workdir, extra_args=(), names=None, tag="", axllib=None, rt=None, cflags=(),
+              qlevel=None, timeout=60, env=None, keep_exe=False):
+    """Route 'c-all' (added for C16; run_program / run_many are unchanged): like route 'c', but
+      * the source is rendered with `names` (the renaming argument of gen/render.py),
+      * EVERY C file the compiler emitted into the job directory is compiled and linked (with -Csmax=<n> a unit is
+        split into <name>.h, <name>.c, <name>001.c ...), with the extra gcc flags `cflags`,
+      * the Aldor library archive and the C run time can be replaced (axllib=, rt=: archives built with the same options).
+    Returns the usual result dict plus "cfiles" (names of the emitted C files, sorted) and "hfiles"."""
+    import glob
+    d = os.path.join(workdir, prog["id"] + "-call" + ("-q%s" % qlevel if qlevel is not None else "") +
+                     "".join(c if c.isalnum() else "_" for c in "".join(extra_args)) + tag)
+    os.makedirs(d, exist_ok=True)
+    with open(os.path.join(d, "p.as"), "w") as fh:
+        fh.write(render.render(prog, names))
+    q = DIALECT_ARGS[dialect_of(prog)] + (["-Q%s" % qlevel] if qlevel is not None else [])
+    rc, out, err, to = vlib.aldor(build, q + list(extra_args) + ["-Fc", "-Fmain", "p.as"], d, timeout=timeout, env=env)
+    cfiles = sorted(os.path.basename(f) for f in glob.glob(os.path.join(d, "*.c")))
+    hfiles = sorted(os.path.basename(f) for f in glob.glob(os.path.join(d, "*.h")))
+    if rc != 0 or to:
+        return _res(rc, out, err, "compile", to, d, cfiles=cfiles, hfiles=hfiles)
+    cmd = ["gcc", "-w", "-O0", "-I" + vlib.SRC] + list(cflags) + ["-o", "p"] + cfiles + \
+          [axllib or os.path.join(vlib.REPO, "aldor/lib/axllib/src/libaxllib.a"), rt or build["rt"], "-lm"]
+    rc, out, err, to = vlib.run(cmd, cwd=d, timeout=max(timeout, 300))
+    if rc != 0 or to:
+        return _res(rc, out, err, "link", to, d, cfiles=cfiles, hfiles=hfiles)
+    rc, out, err, to = vlib.run(["./p"], cwd=d, timeout=timeout, env=env)
+    if not keep_exe:
+        try:
+            os.unlink(os.path.join(d, "p"))
+        except OSError:
+            pass
+    return _res(rc, out, err, "run", to, d, cfiles=cfiles, hfiles=hfiles)
